@@ -9,6 +9,7 @@ No function of the repository is ever called by the Python that runs this analys
 """
 import ast
 import builtins as _b
+import re
 import sys
 
 from .model import AnalysisError, src
@@ -24,20 +25,22 @@ class Obj(object):
         self.cls = cls
         self.attrs = attrs
         self.closed = closed
+        self.qual = None   # qualified name when this is an instance of a repository class
 
     def __repr__(self):
         return '<%s %s>' % (self.cls, ','.join('%s=%r' % kv for kv in sorted(self.attrs.items(), key=lambda kv: kv[0]) if kv[0] in ('op', 'id', 'value', 'ctx')))
 
 
 class ClassRef(object):
-    def __init__(self, name):
+    def __init__(self, name, qual=None):
         self.name = name
+        self.qual = qual   # set for classes of the repository (their names may collide with AST class names)
 
     def __repr__(self):
         return 'class:' + self.name
 
     def __eq__(self, other):
-        return isinstance(other, ClassRef) and other.name == self.name
+        return isinstance(other, ClassRef) and other.name == self.name and (other.qual == self.qual or other.qual is None or self.qual is None)
 
     def __hash__(self):
         return hash(('ClassRef', self.name))
@@ -117,6 +120,7 @@ class Interp(object):
         self.max_depth = max_depth
         self.globals = {}
         self._modvars = {}
+        self.trace = False
 
     # ------------------------------------------------------------------ path exploration
     def explore(self, thunk):
@@ -172,8 +176,14 @@ class Interp(object):
         return bool(v)
 
     # ------------------------------------------------------------------ expressions
+    _dispatch = {}
+
     def ev(self, e, env):
-        m = getattr(self, 'ev_' + type(e).__name__, None)
+        t = type(e)
+        name = Interp._dispatch.get(t)
+        if name is None:
+            name = Interp._dispatch[t] = 'ev_' + t.__name__
+        m = getattr(self, name, None)
         if m is None:
             self.unknown.append('expr ' + type(e).__name__ + ': ' + src(e)[:60])
             return TOP
@@ -191,7 +201,7 @@ class Interp(object):
             return {'True': True, 'False': False, 'None': None}[e.id]
         if e.id == 'Ellipsis':
             return Ellipsis
-        if e.id in ('int', 'float', 'complex', 'str', 'bytes', 'bool', 'tuple', 'list', 'dict', 'set', 'type', 'object'):
+        if e.id in ('int', 'float', 'complex', 'str', 'bytes', 'bool', 'tuple', 'list', 'dict', 'set', 'type', 'object', 'len'):
             return getattr(_b, e.id)
         if e.id == 'unicode':
             return str
@@ -205,7 +215,7 @@ class Interp(object):
                     return TOP
             q = self.model.resolve_name(self.module, e.id)
             if q in self.model.classes:
-                return ClassRef(q.rsplit('.', 1)[1])
+                return ClassRef(q.rsplit('.', 1)[1], q if not q.startswith('python_minifier.ast_compat.') else None)
             if q in self.model.funcs:
                 return Closure(self.model.funcs[q].node, {}, self)
             if q and '.' in q:
@@ -264,6 +274,16 @@ class Interp(object):
                     tt = token_types(self.model)
                     if e.attr in tt:
                         return tt[e.attr]
+        if self.model is not None and self.module is not None:
+            root = e
+            while isinstance(root, ast.Attribute):
+                root = root.value
+            if isinstance(root, ast.Name) and root.id not in env and root.id not in self.globals:
+                q = self.model.resolve_expr(self.module, e)
+                if q in self.model.classes:
+                    return ClassRef(q.rsplit('.', 1)[1], q if not q.startswith('python_minifier.ast_compat.') else None)
+                if q in self.model.funcs:
+                    return Closure(self.model.funcs[q].node, {}, self)
         v = self.ev(e.value, env)
         return self.getattr(v, e.attr, e)
 
@@ -279,7 +299,7 @@ class Interp(object):
                 return v.attrs['value']  # ast_compat adds n/s aliases to Constant
             # methods of repository classes
             if self.model is not None:
-                for cq in self.model.classes:
+                for cq in ([v.qual] if v.qual else self._classes_named(v.cls)):
                     if cq.rsplit('.', 1)[1] == v.cls:
                         fi = self.model.method(cq, attr)
                         if fi is not None:
@@ -302,13 +322,23 @@ class Interp(object):
             return Closure(fi.node, {}, self, self_obj=v[1], cls=[k for k in self.model.mro(v[2]) if self.model.funcs.get(k + '.' + attr) is fi][0])
         if isinstance(v, tuple) and attr in ('major', 'minor') and len(v) >= 2:
             return v[0] if attr == 'major' else v[1]
-        if isinstance(v, (str, bytes, list, dict, tuple, set, int, float, complex)):
+        if isinstance(v, (str, bytes, list, dict, tuple, set, int, float, complex, re.Match)):
             try:
                 m = getattr(v, attr)
             except AttributeError:
                 raise _Raise('AttributeError:' + attr)
             return ('pymethod', v, attr)
         return TOP
+
+    def _classes_named(self, name):
+        idx = self.model.__dict__.get('_classes_by_name')
+        if idx is None:
+            idx = {}
+            for c in self.model.classes:
+                if not c.startswith('python_minifier.ast_compat.'):
+                    idx.setdefault(c.rsplit('.', 1)[1], []).append(c)
+            self.model._classes_by_name = idx
+        return idx.get(name, ())
 
     def ev_Subscript(self, e, env):
         v = self.ev(e.value, env)
@@ -540,7 +570,7 @@ class Interp(object):
             o = self.ev(target.value, env)
             if isinstance(o, Obj):
                 o.attrs[target.attr] = value
-                self.events.append(('setattr', o, target.attr, value))
+                self.trace and self.events.append(('setattr', o, target.attr, value))
         elif isinstance(target, ast.Subscript):
             o = self.ev(target.value, env)
             k = self.ev(target.slice, env)
@@ -551,8 +581,15 @@ class Interp(object):
                     pass
 
     # ------------------------------------------------------------------ calls
+    _ftext = {}
+
     def ev_Call(self, e, env):
-        ftext = src(e.func)
+        ftext = Interp._ftext.get(id(e))
+        if ftext is None:
+            ftext = src(e.func)
+            Interp._ftext[id(e)] = ftext
+            Interp._keep = getattr(Interp, '_keep', [])
+            Interp._keep.append(e)
         args = []
         for a in e.args:
             if isinstance(a, ast.Starred):
@@ -638,6 +675,15 @@ class Interp(object):
 
     def construct(self, cref, args, kwargs):
         """Instantiate an abstract object; AST classes take their fields positionally."""
+        if cref.qual is not None and self.model is not None and cref.qual in self.model.classes:
+            o = Obj(cref.name)
+            o.qual = cref.qual
+            self.trace and self.events.append(('new', o))
+            init = self.model.method(cref.qual, '__init__')
+            if init is not None:
+                owner = [k for k in self.model.mro(cref.qual) if self.model.funcs.get(k + '.__init__') is init][0]
+                self.call_closure(Closure(init.node, {}, self, self_obj=o, cls=owner), list(args), dict(kwargs))
+            return o
         if cref.name in CONST_KIND:
             # ast_compat.Num / Str / Bytes / NameConstant / Ellipsis all build a Constant
             if cref.name == 'Ellipsis':
@@ -645,13 +691,14 @@ class Interp(object):
             else:
                 val = args[0] if args else kwargs.get('value', kwargs.get('n', kwargs.get('s', TOP)))
             o = Obj('Constant', value=val, kind=None)
-            self.events.append(('new', o))
+            self.trace and self.events.append(('new', o))
             return o
         if self.model is not None and getattr(ast, cref.name, None) is None:
             cqs = [cq for cq in self.model.classes if cq.rsplit('.', 1)[1] == cref.name]
             if len(cqs) == 1:
                 o = Obj(cref.name)
-                self.events.append(('new', o))
+                o.qual = cqs[0]
+                self.trace and self.events.append(('new', o))
                 init = self.model.method(cqs[0], '__init__')
                 if init is not None:
                     owner = [k for k in self.model.mro(cqs[0]) if self.model.funcs.get(k + '.__init__') is init][0]
@@ -663,7 +710,7 @@ class Interp(object):
             for f, a in zip(fields, args):
                 attrs[f] = a
         o = Obj(cref.name, **attrs)
-        self.events.append(('new', o))
+        self.trace and self.events.append(('new', o))
         return o
 
     def call_closure(self, clo, args, kwargs):
@@ -738,7 +785,14 @@ class Interp(object):
             return TOP
         for k in cs:
             if isinstance(k, ClassRef):
-                if isinstance(v, Obj) and (ast_isinstance(v.cls, k.name) or self.repo_isinstance(v.cls, k.name)):
+                if isinstance(v, Obj) and v.qual is not None:
+                    if k.qual is not None and k.qual in self.model.mro(v.qual):
+                        return True
+                    if k.qual is None and any(q.rsplit('.', 1)[1] == k.name for q in self.model.mro(v.qual)) and getattr(ast, k.name, None) is None:
+                        return True
+                elif isinstance(v, Obj) and k.qual is None and (ast_isinstance(v.cls, k.name) or self.repo_isinstance(v.cls, k.name)):
+                    return True
+                elif isinstance(v, Obj) and k.qual is not None and self.repo_isinstance(v.cls, k.name):
                     return True
             elif isinstance(k, type):
                 if not isinstance(v, (Obj, ClassRef, Closure)) and isinstance(v, k):
@@ -779,7 +833,7 @@ class Interp(object):
         if len(args) >= 2 and isinstance(args[0], Obj) and isinstance(args[1], str) and args[1] not in args[0].attrs and self.model is not None and \
                 any(cq.rsplit('.', 1)[1] == args[0].cls for cq in self.model.classes):
             # object of a repository class: its methods are known
-            for cq in self.model.classes:
+            for cq in ([args[0].qual] if args[0].qual else list(self.model.classes)):
                 if cq.rsplit('.', 1)[1] == args[0].cls:
                     fi = self.model.method(cq, args[1])
                     if fi is not None:
@@ -801,8 +855,22 @@ class Interp(object):
         v = args[0] if len(args) == 1 else list(args)
         if v is TOP or any(x is TOP for x in v):
             return TOP
+        v = list(self.iterate(v))
         if 'key' in kwargs:
-            return TOP
+            k = kwargs['key']
+            if k is len:
+                keys = [len(x) for x in v]
+            elif isinstance(k, Closure):
+                keys = [self.call_closure(k, [x], {}) for x in v]
+            else:
+                return TOP
+            if any(x is TOP for x in keys):
+                return TOP
+            if not v:
+                raise _Raise('ValueError')
+            return v[keys.index(min(keys))]
+        if not v:
+            raise _Raise('ValueError')
         return min(v)
 
     def builtin_max(self, args, kwargs, e, env):
@@ -839,7 +907,10 @@ class Interp(object):
         v = args[0]
         if v is TOP or isinstance(v, Obj):
             return TOP
-        return repr(v)
+        try:
+            return repr(v)
+        except Exception as ex:
+            raise _Raise(type(ex).__name__)
 
     def builtin_type(self, args, kwargs, e, env):
         return self.typeof(args[0]) if len(args) == 1 else TOP
@@ -891,6 +962,25 @@ class Interp(object):
         except Exception:
             return TOP
 
+    def builtin_hex(self, args, kwargs, e, env):
+        return TOP if args[0] is TOP else hex(args[0])
+
+    def builtin_str(self, args, kwargs, e, env):
+        if not args:
+            return ''
+        v = args[0]
+        if v is TOP:
+            return TOP
+        if isinstance(v, Obj):
+            m = self.getattr(v, '__str__')
+            if isinstance(m, Closure):
+                return self.call_closure(m, [], {})
+            return TOP
+        try:
+            return str(v)
+        except Exception as ex:
+            raise _Raise(type(ex).__name__)
+
     def builtin_ord(self, args, kwargs, e, env):
         return TOP if args[0] is TOP else ord(args[0])
 
@@ -900,6 +990,10 @@ class Interp(object):
     def builtin_super(self, args, kwargs, e, env):
         so = env.get('self')
         cur = env.get('__class_ctx__')
+        if isinstance(so, Obj) and so.qual and cur and self.model is not None:
+            mro = self.model.mro(so.qual)
+            if cur in mro and mro.index(cur) + 1 < len(mro):
+                return ('super', so, mro[mro.index(cur) + 1])
         if isinstance(so, Obj) and cur and self.model is not None:
             mro = self.model.mro(cur)
             if len(mro) > 1:
@@ -989,11 +1083,22 @@ class Interp(object):
                 pass
             self.block(s.finalbody, env)
         elif isinstance(s, ast.With):
+            managers = []
             for it in s.items:
                 v = self.ev(it.context_expr, env)
+                entered = v
+                if isinstance(v, Obj) and self.model is not None:
+                    en = self.getattr(v, '__enter__')
+                    if isinstance(en, Closure):
+                        entered = self.call_closure(en, [], {})
+                        managers.append(v)
                 if it.optional_vars is not None:
-                    self.bind(it.optional_vars, v, env)
+                    self.bind(it.optional_vars, entered, env)
             self.block(s.body, env)
+            for v in reversed(managers):
+                ex = self.getattr(v, '__exit__')
+                if isinstance(ex, Closure):
+                    self.call_closure(ex, [None, None, None], {})
         elif isinstance(s, (ast.Import, ast.ImportFrom, ast.Global, ast.Nonlocal)):
             pass
         else:
